@@ -36,6 +36,12 @@ def main():
         traceback.print_exc()
         ctx.broken.append('check crashed: %s' % traceback.format_exc().splitlines()[-1])
     try:
+        from . import bounded
+        for msg in bounded.STALLS:
+            ctx.undecided.append('bounded check incomplete: ' + msg)
+    except Exception:
+        pass
+    try:
         from pyvc import solve
         solve.close_pool()
     except Exception:
